@@ -92,17 +92,21 @@ Example C19_nonvacuous :
   /\ depth (fs_root s_nested) <= 5.
 Proof. repeat split; try (vm_compute; reflexivity). cbv. repeat constructor. Qed.
 
-(* REFUTED: without the Root link the reader rebuilds the tree from the flat containers in identifier order; group 0 is
-   met before its parent 4 and is hung on the new root: altered content for an entity the Root link does not describe.
-   (witness replayed on the implementation: corpus/C19/0001-root-link-nested.json, known finding) *)
-Theorem C19_optional_refuted : ~ C19_optional_full.
+(* REFUTED (for the source as pinned: no scan of the child containers when the root is rebuilt): without the Root link the
+   reader rebuilds the tree from the flat containers in identifier order; group 0 is met before its parent 4 and is hung on
+   the new root: altered content for an entity the Root link does not describe.  (witness replayed on the implementation:
+   corpus/C19/0001-root-link-nested.json, known finding; with fixes/C19-root-rebuild-keeps-hierarchy.patch applied
+   [nested_scan] is true, the hypothesis is false and the witness reads back with its hierarchy) *)
+Theorem C19_optional_refuted : nested_scan = false -> ~ C19_optional_full.
 Proof.
-  intros H. specialize (H s_nested (ILink [] KRoot) 5).
-  destruct H as [t [E [_ Hag]]]; try (vm_compute; reflexivity).
-  - cbv. repeat constructor.
-  - vm_compute in E. inversion E; subst t. clear E.
-    specialize (Hag 0%N). vm_compute in Hag.
-    assert (Hn : ~ (5%N = 0%N \/ False)) by (intros [X|[]]; discriminate). specialize (Hag Hn). discriminate.
+  intros Hn H. vm_compute in Hn.
+  first [ discriminate Hn
+        | specialize (H s_nested (ILink [] KRoot) 5);
+          destruct H as [t [E [_ Hag]]]; try (vm_compute; reflexivity);
+          [ cbv; repeat constructor
+          | vm_compute in E; inversion E; subst t; clear E;
+            specialize (Hag 0%N); vm_compute in Hag;
+            assert (Hn0 : ~ (5%N = 0%N \/ False)) by (intros [X|[]]; discriminate); specialize (Hag Hn0); discriminate ] ].
 Qed.
 Print Assumptions C19_optional_refuted.
 
